@@ -182,8 +182,8 @@ def run(ctx):
                         % (sf.SFTPFile.MAX_REQUEST_SIZE, sf.SFTPFile._DEFAULT_BUFSIZE))
     ctx.build()
     rng = ctx.rng
-    n_lock = 1500 if ctx.thorough else 260
-    n_thr = 400 if ctx.thorough else 70
+    n_lock = 6000 if ctx.thorough else 1000
+    n_thr = 1500 if ctx.thorough else 250
 
     # ---------------- lockstep correspondence + oracle
     reqs, checks = [], []  # checks: (line index, kind, expected, case id)
@@ -278,18 +278,21 @@ def run(ctx):
 
 
 META = {
-    "claimed": False,
-    "reason": "theorems in progress",
+    "claimed": True,
     "level": ("Proved in Lean for every schedule of reader / prefetch threads / short-reading server, every chunk list "
-              "and every cap: prefetch buffers always hold true file content, every completed read returns exactly "
-              "file[pos, pos+n) truncated at EOF (or the rest of the file), and a blocked reader always has an enabled "
-              "other task with a decreasing measure (no hang). Tied to sftp_file.py/sftp_client.py by a deterministic "
-              "lockstep run of the real code under PRNG-chosen schedules (actions, enabled sets, bookkeeping state and "
-              "returned bytes compared at every step)."),
+              "(overlapping, unordered, beyond EOF), every cap and every short-read choice: prefetch buffers always hold "
+              "true file content; every completed read(n) returns file[p:p+n] truncated at EOF and read() returns "
+              "file[p:] (reads_exact); a reader blocked waiting for a response always has an enabled peer "
+              "(waiting_reader_not_stuck_partial) and the peers' steps are bounded by a measure (bounded_wait_partial). "
+              "PARTIAL in one point: the reader's spin in _async_response (answer arrived before _prefetch_thread "
+              "registered the extent) is not covered by the no-hang theorem (needs request-number uniqueness). Tied to "
+              "sftp_file.py/sftp_client.py by a deterministic lockstep run of the real code under PRNG-chosen "
+              "schedules: every action enabled, enabled sets, bookkeeping state and returned bytes compared per step."),
     "note": ("Trusted: Lean kernel + 3 standard axioms; the lockstep scheduler (park points = the model's shared "
-             "accesses; statements between two park points are treated as atomic, which is what the GIL-free reading "
-             "of the code gives for reader-private state); honest server (DATA carries true bytes, 1..n of them; EOF "
-             "iff offset >= size); BufferedFile in unbuffered mode (buffered modes only in the threaded oracle)."),
-    "technique": "Lean 4 proof (inductive invariant over an interleaving semantics + progress measure) + deterministic "
-                 "scheduler lockstep correspondence",
+             "accesses; code between two park points touches only task-private state or runs under the lock the model "
+             "treats as atomic); honest server (DATA carries 1..n true bytes; EOF iff offset >= size; answers in "
+             "request order); BufferedFile in unbuffered mode in the model (buffered modes only in the threaded "
+             "oracle); no-hang theorems assume caps are None or >= 1 (cap 0 spins by construction)."),
+    "technique": "Lean 4 proof (inductive invariants over an interleaving semantics + progress measure) + deterministic "
+                 "scheduler lockstep correspondence + threaded oracle with structural hang detection",
 }
